@@ -258,6 +258,61 @@ class SimClock:
 
 
 # --------------------------------------------------------------------------- #
+# S6 object identity
+# --------------------------------------------------------------------------- #
+
+
+class SimId:
+    """`id` as the code under test sees it, owned by the simulator.
+
+    Real addresses are reused by the allocator at its own discretion, which no
+    scenario can replay.  Here an identity is an integer handed out by the
+    simulator; when an object dies (deterministically: reference counting, and
+    garbage collection only when the scheduler says so) its identity goes to a
+    free list and is **reused for the next new object** (LIFO) - the adversarial
+    but legal behaviour of an allocator, made a pure function of the scenario."""
+
+    _counter = 1000  # process-wide: identities of different runs never collide
+
+    def __init__(self, reuse=True) -> None:
+        self.reuse = reuse
+        self._free: list[int] = []
+        self._live: dict[int, tuple] = {}
+        self.calls = 0
+        self.reused = 0
+
+    def __call__(self, obj):
+        import weakref
+
+        self.calls += 1
+        rid = _real_id(obj)
+        entry = self._live.get(rid)
+        if entry is not None and entry[1]() is obj:
+            return entry[0]
+        if self._free and self.reuse:
+            sid = self._free.pop()
+            self.reused += 1
+        else:
+            SimId._counter += 1
+            sid = SimId._counter
+        try:
+            ref = weakref.ref(obj, lambda _r, rid=rid, sid=sid: self._dead(rid, sid))
+        except TypeError:
+            return rid
+        self._live[rid] = (sid, ref)
+        return sid
+
+    def _dead(self, rid, sid) -> None:
+        entry = self._live.get(rid)
+        if entry is not None and entry[0] == sid:
+            del self._live[rid]
+            self._free.append(sid)
+
+
+_real_id = id
+
+
+# --------------------------------------------------------------------------- #
 # install / uninstall
 # --------------------------------------------------------------------------- #
 
@@ -280,20 +335,24 @@ _DEAD_OS = Proxy(real_os, listdir=_dead_listdir)
 _REAL = {}
 
 
+_ABSENT = object()
+
+
 def _swap(module, name, value) -> None:
     key = (module, name)
     if key not in _REAL:
-        _REAL[key] = getattr(module, name)
+        _REAL[key] = module.__dict__.get(name, _ABSENT)
     setattr(module, name, value)
 
 
 class Env:
     """The simulated environment of one run."""
 
-    def __init__(self, mem=None, fs: SimFS | None = None, clock: SimClock | None = None) -> None:
+    def __init__(self, mem=None, fs: SimFS | None = None, clock: SimClock | None = None, ids: SimId | None = None) -> None:
         self.mem = mem
         self.fs = fs
         self.clock = clock
+        self.ids = ids
 
     def install(self) -> None:
         if self.mem is not None:
@@ -309,11 +368,22 @@ class Env:
             _swap(m_dump, "os", fs.os_proxy())
         if self.clock is not None:
             _swap(m_tracer, "time", self.clock.proxy())
+        if self.ids is not None:
+            # every `id(...)` evaluated by these modules (a module global shadows the builtin)
+            import openfisca_core.taxbenefitsystems.tax_benefit_system as m_tbs
+            import openfisca_core.tools.test_runner as m_runner
+            import openfisca_core.reforms.reform as m_reform
+
+            for m in (m_tbs, m_runner, m_reform):
+                _swap(m, "id", self.ids)
 
     @staticmethod
     def uninstall() -> None:
         for (module, name), value in _REAL.items():
-            setattr(module, name, value)
+            if value is _ABSENT:
+                module.__dict__.pop(name, None)
+            else:
+                setattr(module, name, value)
         _REAL.clear()
         # Finalizers of spill stores created under a SimFS may run after the
         # run is over (garbage cycles): they must never reach the real file
